@@ -40,6 +40,155 @@ func ruleR12_6(c *Check) {
 	r.Exists(writes >= 1, w.F("badger.levelHandler.replaceTables"), "in-place writes by owners are seen", nil, "the alias analysis found no write at all, not even the owners': it is not looking at the code")
 }
 
+// R05.5: each visible key exactly once.
+func ruleR05_5(c *Check) {
+	w := c.W
+	r := c.Rule("R05.5", "E1+E6", 10, "Iterator.parseItem advances the underlying iterator on every path before it returns (an entry is never parsed twice); going forward without AllVersions an entry whose user key equals lastKey is skipped and lastKey is set from the current key before the deleted/expired test (a deleted newest version must still hide the older ones); going in reverse the look-ahead goes back to FILL only for the same user key at a version <= readTs; under AllVersions the entry is filled before and regardless of the duplicate and deleted tests; Iterator.Seek clears lastKey and drains the prefetched items before it repositions; Next takes the prefetched items in the order parseItem produced them (FIFO list)",
+		"a path that returns without advancing yields the same entry again; a lastKey updated only for live versions lets an older version of a deleted key reappear; a stale lastKey after Seek hides the key sought")
+	pi := w.F("badger.Iterator.parseItem")
+	iitr := w.Field("badger.Iterator.iitr")
+	// the merge iterator variable (mi := it.iitr) or the field itself
+	isMI := func(e ast.Expr) bool { return w.fieldFrom(e) == iitr }
+	next := selPred("mi.Next()", func(w *World, f *Fn, n ast.Node) bool {
+		call, ok := n.(*ast.CallExpr)
+		if !ok || !isCallNamed(w, call, "Next") {
+			return false
+		}
+		rc := recvOf(call)
+		return rc != nil && isMI(rc)
+	})
+	r.Exists(len(pi.Sites(next)) >= 4, pi, "advance sites", nil, "expected the underlying iterator to be advanced on each skip path and after a fill")
+	r.ExitsNeed(pi, "underlying iterator advanced", next, 0, exitAll)
+	lastKey := w.Field("badger.Iterator.lastKey")
+	rev := w.Field("badger.IteratorOptions.Reverse")
+	allv := w.Field("badger.IteratorOptions.AllVersions")
+	sameKey := w.Func("y.SameKey")
+	ide := w.Func("badger.isDeletedOrExpired")
+	// forward dedupe: a `mi.Next(); return false` under SameKey(lastKey, key), itself under !Reverse and !AllVersions
+	okDedupe := false
+	for _, s := range pi.Sites(next) {
+		gs := w.Guards(pi, s)
+		same := HasGuard(gs, true, func(e ast.Expr) bool {
+			call, ok := unparen(e).(*ast.CallExpr)
+			return ok && w.Callee(call) == types.Object(sameKey) && (w.fieldOf(call.Args[0]) == lastKey || w.fieldOf(call.Args[1]) == lastKey)
+		})
+		if same == nil {
+			continue
+		}
+		fwd := HasGuard(gs, false, func(e ast.Expr) bool { return w.fieldOf(e) == rev })
+		notAll := HasGuard(gs, false, func(e ast.Expr) bool { return w.fieldOf(e) == allv })
+		okDedupe = fwd != nil && notAll != nil
+		r.Check(okDedupe, pi, "duplicate-key skip applies going forward without AllVersions", s, "the SameKey(lastKey, key) skip is not under !Reverse and !AllVersions")
+	}
+	r.Check(okDedupe, pi, "forward iteration skips further versions of the key just seen", nil, "no skip under SameKey(it.lastKey, key)")
+	// lastKey set before the deleted/expired test going forward
+	stores := pi.Sites(selStore(lastKey))
+	r.Exists(len(stores) == 1, pi, "lastKey updated", nil, "expected one store to Iterator.lastKey in parseItem")
+	for _, s := range stores {
+		fwd := HasGuard(w.Guards(pi, s), false, func(e ast.Expr) bool { return w.fieldOf(e) == rev })
+		r.Check(fwd != nil && w.mentions(s, w.Func("y.SafeCopy")) || fwd != nil && isCallNamed(w, s.(*ast.AssignStmt).Rhs[0], "Copy"), pi, "lastKey is a copy of the current key, tracked going forward", s, "lastKey is not copied from the current key under !Reverse")
+		// it must not depend on the entry being live
+		dead := HasGuard(w.Guards(pi, s), false, func(e ast.Expr) bool { return w.isCallTo(e, ide) })
+		r.Check(dead == nil, pi, "lastKey updated whether or not the version is live", s, "lastKey is updated only for live versions: an older version of a deleted key is returned")
+	}
+	r.DomAll(pi, "lastKey updated before the deleted/expired test (forward)", selCall(ide), 0, selStore(lastKey), 0, excuseField(w, rev, true))
+	// reverse look-ahead: goto FILL only for the same user key
+	gotos := 0
+	pi.walk(func(n ast.Node) bool {
+		b, ok := n.(*ast.BranchStmt)
+		if !ok || b.Tok != token.GOTO {
+			return true
+		}
+		gotos++
+		gs := w.Guards(pi, b)
+		eq := HasGuard(gs, true, func(e ast.Expr) bool {
+			call, ok := unparen(e).(*ast.CallExpr)
+			if !ok || len(call.Args) != 2 {
+				return false
+			}
+			fn, _ := w.Callee(call).(*types.Func)
+			if fn == nil || fn.Name() != "Equal" {
+				return false
+			}
+			a, b := w.from(call.Args[0]), w.from(call.Args[1])
+			pk := func(x ast.Expr) bool { return isCallNamed(w, x, "ParseKey") }
+			ik := func(x ast.Expr) bool { return w.fieldOf(x) == w.Field("badger.Item.key") }
+			return (pk(a) && ik(b)) || (pk(b) && ik(a)) || (ik(call.Args[0]) || ik(call.Args[1]))
+		})
+		isRev := HasGuard(gs, true, func(e ast.Expr) bool { return w.fieldOf(e) == rev })
+		implicitRev := false
+		for _, g := range gs {
+			// `if !Reverse || !mi.Valid() { return }` leaves Reverse && Valid
+			if w.fieldOf(g.Cond) == rev && g.Val {
+				implicitRev = true
+			}
+		}
+		r.Check(eq != nil && (isRev != nil || implicitRev), pi, "reverse look-ahead continues only on the same user key", b, "goto FILL is not under bytes.Equal(ParseKey(next key), item.key) in reverse mode")
+		return true
+	})
+	r.Exists(gotos == 1, pi, "reverse look-ahead present", nil, "expected one `goto FILL`")
+	// AllVersions: filled regardless of duplicate / deleted tests
+	fillSel := selCallName(w, "badger.Iterator.fill")
+	nAll := 0
+	for _, s := range pi.Sites(fillSel) {
+		gs := w.Guards(pi, s)
+		if HasGuard(gs, true, func(e ast.Expr) bool { return w.fieldOf(e) == allv }) == nil {
+			continue
+		}
+		nAll++
+		bad := false
+		for _, g := range gs {
+			if w.mentions(g.Cond, lastKey) || w.isCallTo(g.Cond, ide) || w.mentions(g.Cond, ide) {
+				bad = true
+			}
+		}
+		r.Check(!bad, pi, "AllVersions returns every version, deleted or not, duplicate key or not", s, "the AllVersions fill depends on the duplicate-key or deleted/expired test")
+	}
+	r.Exists(nAll == 1, pi, "AllVersions branch fills", nil, "expected one fill under opt.AllVersions")
+	// Seek: lastKey cleared and prefetched items drained before repositioning
+	sk := w.F("badger.Iterator.Seek")
+	repos := selPred("iitr.Seek/Rewind", func(w *World, f *Fn, n ast.Node) bool {
+		call, ok := n.(*ast.CallExpr)
+		if !ok || !(isCallNamed(w, call, "Seek") || isCallNamed(w, call, "Rewind")) {
+			return false
+		}
+		rc := recvOf(call)
+		return rc != nil && isMI(rc)
+	})
+	r.Exists(len(sk.Sites(repos)) >= 2, sk, "reposition sites", nil, "expected iitr.Rewind and iitr.Seek in Iterator.Seek")
+	r.DomAll(sk, "lastKey cleared before repositioning", repos, 0, selStore(lastKey), 0)
+	dataFld := w.Field("badger.Iterator.data")
+	drain := selPred("it.data.pop()", func(w *World, f *Fn, n ast.Node) bool {
+		call, ok := n.(*ast.CallExpr)
+		if !ok || !isCallNamed(w, call, "pop") {
+			return false
+		}
+		rc := recvOf(call)
+		return rc != nil && w.fieldOf(rc) == dataFld
+	})
+	r.DomAll(sk, "prefetched items drained before repositioning", repos, 0, drain, 0)
+	r.DomAll(sk, "prefetch after repositioning", selCallName(w, "badger.Iterator.prefetch"), 0, repos, 0)
+	// FIFO list
+	push, pop := w.F("badger.list.push"), w.F("badger.list.pop")
+	head, tail := w.Field("badger.list.head"), w.Field("badger.list.tail")
+	okPush := false
+	for _, s := range push.Sites(selStore(w.Field("badger.Item.next"))) {
+		if as, ok := s.(*ast.AssignStmt); ok && len(as.Lhs) == 1 {
+			if se, ok := unparen(as.Lhs[0]).(*ast.SelectorExpr); ok && w.fieldOf(se.X) == tail {
+				okPush = true
+			}
+		}
+	}
+	okPop := false
+	for _, s := range pop.Sites(selReturn()) {
+		rs := s.(*ast.ReturnStmt)
+		if len(rs.Results) == 1 && !isNil(rs.Results[0]) && w.fieldFrom(rs.Results[0]) == head {
+			okPop = true
+		}
+	}
+	r.Check(okPush && okPop, push, "prefetched items are queued at the tail and taken from the head", nil, "list.push does not append at the tail or list.pop does not take the head")
+}
+
 // R05.4: single-key iterators.
 func ruleR05_4(c *Check) {
 	w := c.W
